@@ -1,5 +1,6 @@
 """C09 — progress callbacks account for exactly the transferred bytes"""
 from harness import c01, c02
+from harness import common as H
 from harness import faults as FT
 from vlib import fakes as F
 
@@ -76,6 +77,24 @@ def e2e(which, v1, v2, size, thr, chunk, x, y):
     return None
 
 
+def nested_progress(transfer, size, thr, chunk, io, p1, k1, p2):
+    """C09.5: progress accounting when parts overlap (engine NS: a second part is started while the first one is
+    inside its request / inside a subscriber's on_progress)"""
+    from harness import nsrun as N
+    from vlib import ns
+    S = ns.Sched(nest=([(p1, k1)] if p1 >= 0 else []) + ([(p2, 0)] if p2 >= 0 else []))
+    c = N.build(transfer, size, thr, chunk, io, S, limits=dict(max_request_concurrency=2), subs=2)
+    v = N.go(c, S)
+    if v:
+        return v if v == '~' else 'progress: ' + v[5:]
+    if N.finish(c)[0] != 'ok':
+        return 'progress: transfer failed'
+    r = H.progress_reason(c, size, True)
+    if r:
+        return r
+    return None
+
+
 faulted = FT.faulted
 _INV = ['0 <= start <= full', '0 <= csize', '0 <= pos', '1 <= thr',
         '0 <= R <= min(csize, full - start)', '0 <= A < thr', 'R + A == min(pos, min(csize, full - start))']
@@ -108,4 +127,15 @@ OBLIGATIONS = [
          pre=['1 <= size', '1 <= thr', '1 <= chunk', 'size <= 2 * chunk', '1 <= x', 'chunk <= x', '-1 <= y <= chunk'],
          timeout=(150, 900), bounds='<= 2 parts x 1 chunk, one retryable stream fault at a symbolic position',
          encodes=['StreamReaderProgress', 'GetObjectTask retry rewind'], assumptions=['S1', 'S2']),
+    dict(id='C09.5', impl='nested_progress', params='size: int, thr: int, chunk: int, io: int, p1: int, k1: int, p2: int',
+         cases=[('up-path',), ('up-seek',), ('down-seekable',)],
+         pre=['1 <= thr <= size', '5 * 1024 ** 2 <= chunk <= 5 * 1024 ** 3', 'chunk < size <= 2 * chunk', 'io == chunk',
+              '-1 <= p1 <= 60', '0 <= k1 <= 1', '-1 <= p2 <= 60'],
+         splits=[['p2 == -1', 'p1 <= 15'], ['p2 == -1', '15 < p1 <= 30'], ['p2 == -1', '30 < p1']],
+         splits_thorough=[[a, b] for a in ('p1 <= 15', '15 < p1 <= 30', '30 < p1') for b in ('p2 <= 20', '20 < p2 <= 40', '40 < p2')],
+         timeout=(170, 1200),
+         bounds='2-part transfer, request concurrency 2; one (thorough two) nested start at a symbolic scheduling point '
+                '(entry / return of every environment call, incl. inside on_progress): the second part overlaps the first',
+         encodes=['AggregatedProgressCallback', 'UploadFilenameInputManager.yield_upload_part_bodies', 'ReadFileChunk',
+                  'StreamReaderProgress'], assumptions=['S1', 'S2', 'nested (LIFO) schedules only']),
 ] + FT.fault_obligations('c09', 'C09', which=['up-path', 'up-stream', 'down-seekable', 'copy'])
